@@ -7,14 +7,15 @@ W=/tmp/vs/$NAME
 rm -rf $W; mkdir -p /tmp/vs
 git -C /repo worktree add -q --detach $W HEAD || exit 3
 cd $W
-run_demo() { if head -5 $D/demo.py | grep -q pytest || grep -q "^def test_" $D/demo.py; then PYTHONPATH=$W timeout 900 /venv/bin/python -m pytest -q -p no:cacheprovider $D/demo.py >/tmp/vs/$NAME.demo.log 2>&1; else PYTHONPATH=$W timeout 900 /venv/bin/python -W ignore $D/demo.py >/tmp/vs/$NAME.demo.log 2>&1; fi; echo $?; }
-CLEAN=$(run_demo)
+# numba's on-disk cache is not invalidated when only a callee's file changes: clean and patched runs get separate, fresh cache dirs
+run_demo() { export NUMBA_CACHE_DIR=/tmp/vs/$NAME.nc-$1; rm -rf $NUMBA_CACHE_DIR; if head -5 $D/demo.py | grep -q pytest || grep -q "^def test_" $D/demo.py; then PYTHONPATH=$W timeout 900 /venv/bin/python -m pytest -q -p no:cacheprovider $D/demo.py >/tmp/vs/$NAME.demo.log 2>&1; else PYTHONPATH=$W timeout 900 /venv/bin/python -W ignore $D/demo.py >/tmp/vs/$NAME.demo.log 2>&1; fi; echo $?; }
+CLEAN=$(run_demo clean)
 git apply $D/patch.diff || { echo "$NAME: PATCH DOES NOT APPLY"; git -C /repo worktree remove --force $W; exit 3; }
-MUT=$(run_demo)
+MUT=$(run_demo mut)
 TESTS="skipped"
 if [ "$FULL" = "full" ]; then
   PYTHONPATH=$W timeout 3000 /venv/bin/python -m pytest -q -p no:cacheprovider --timeout=900 -x --deselect mchap/tests/test_docs.py --deselect "mchap/tests/test_jitutils.py::test_comb[0-0]" > /tmp/vs/$NAME.tests.log 2>&1
   TESTS="rc=$? $(tail -1 /tmp/vs/$NAME.tests.log)"
 fi
 echo "$NAME: demo_clean_rc=$CLEAN demo_mutant_rc=$MUT tests: $TESTS"
-cd /; git -C /repo worktree remove --force $W
+cd /; git -C /repo worktree remove --force $W; rm -rf /tmp/vs/$NAME.nc-clean /tmp/vs/$NAME.nc-mut
